@@ -294,7 +294,7 @@ impl Property for C14 {
     fn assumptions(&self) -> Vec<String> {
         vec![
             "operations whose result cannot fit in memory (huge left shifts / powers) are outside the property and are not generated".into(),
-            "non-termination is approximated by a per-case watchdog (20 s quick / 120 s thorough against a normal cost of microseconds) confirmed alone in a fresh process with twice the budget".into(),
+            "non-termination is approximated by a per-case watchdog (60 s quick / 180 s thorough against a normal cost of microseconds) confirmed alone in a fresh process with twice the budget".into(),
             "the value checks come from the owning properties' oracles (RefInt)".into(),
         ]
     }
